@@ -13,6 +13,11 @@ from the parent).  Then get_variants is queried with every arch filter x type
 filter x recursive on the root and on inner variants (soundness, uniqueness,
 order; completeness only for the unfiltered call), and everything is repeated
 on the forest obtained by loads(dumps()).
+
+Later additions: subtrees built bottom-up on a detached variant and attached afterwards (also after a top-level
+variant took a UID that occurs inside the subtree), and variants that already sit in the forest offered to another
+container (as they are, or with UID/arches re-spelled): outcome not judged, the forest afterwards is (every variant
+held once, by the parent its .parent names; a refusal changes nothing).
 """
 import itertools
 import random
